@@ -6,6 +6,7 @@
    connection operation returns by its deadline or when the connection is closed. *)
 From SV Require Import Model.Common Model.Metrics Model.Shutdown Proofs.ShutdownProofs Proofs.MetricsProofs Proofs.ShutdownClientProofs.
 From SV Require Import Model.ShutdownBacklog Proofs.ShutdownBacklogProofs.
+From SV Require Import Model.ShutdownWaits Proofs.ShutdownWaitsProofs.
 Local Open Scope Z_scope.
 
 (* the completion bound computed from the wake-up sets is sound for EVERY wait graph: every run completes, no
@@ -196,3 +197,83 @@ Theorem C18_backlog_example :
   replay_backlog (FCFG 8 500 true) 40 5 3 = Some (0, 3, 8, 0, 9, false)%nat.
 Proof. exact backlog_example_lemma. Qed.
 Print Assumptions C18_backlog_example.
+
+(* ------------------------------------------------------------------------------------------------------------ *)
+(* Waits of the shutdown path whose wake-up must not depend on the waiter itself (Model/ShutdownWaits.v).        *)
+
+(* A. The pipeline stop with a bounded chunk queue, wired as in obase/pipelines.go: the worker hands its chunks to
+   bufferer.Accept, ends, and only then Destroy() runs and raises the buffer's stop signal.  For every queue capacity,
+   every number of chunks and every schedule - in particular a queue that is FULL and a feeder that never makes room
+   (QRoom is an environment event: upstream down) - a step of the worker or of the chain behind it is enabled in
+   every reachable state until Destroy has run: nothing on this path waits. *)
+Theorem C18_pipeline_stop_never_waits :
+  forall cfg p evs s, qg_block cfg = false -> q_run cfg (q_init p) evs = Some s -> q_pc s <> WDestroyed ->
+  exists e s', q_own e = true /\ q_step cfg s e = Some s'.
+Proof. exact pipeline_stop_never_waits_lemma. Qed.
+Print Assumptions C18_pipeline_stop_never_waits.
+
+(* ... every run has exactly p + 2 - (what is left) such steps: p Accept calls, the end of the worker, Destroy; and when
+   Destroy has run, the stop signal is raised and each of the p chunks is in the queue (to be saved by the cleanup:
+   C18_nothing_only_in_memory_partial) or counted dropped *)
+Theorem C18_pipeline_stop_bounded :
+  forall cfg p evs s, qg_block cfg = false -> q_run cfg (q_init p) evs = Some s ->
+  (q_own_steps evs + q_measure s = p + 2)%nat /\
+  (q_pc s = WDestroyed -> (q_kept s + q_dropped s = p)%nat /\ q_closed s = true).
+Proof. exact pipeline_stop_bounded_lemma. Qed.
+Print Assumptions C18_pipeline_stop_bounded.
+
+(* The VARIANT in which Accept waits on a full queue for room or for the buffer's stop signal (not the code of the
+   repository; seeded to test this check), for EVERY capacity and every number of chunks above it: a reachable state
+   (after capacity + 1 Accept calls) with the worker inside Accept, the queue full, the signal
+   not raised, and NO step of the shutdown path enabled - the signal is raised by Destroy, Destroy runs after the
+   worker has ended, the worker is the waiter: a cycle in the wait-for relation. *)
+Theorem C18_blocking_accept_variant_refuted :
+  forall cap p, (cap < p)%nat -> exists evs s,
+    q_run (QCFG cap true) (q_init p) evs = Some s /\ q_pc s <> WDestroyed /\ q_closed s = false /\
+    q_len s = cap /\
+    (forall e, q_own e = true -> q_step (QCFG cap true) s e = None).
+Proof. exact blocking_accept_variant_refuted_lemma. Qed.
+Print Assumptions C18_blocking_accept_variant_refuted.
+
+(* B. The TCP listener: a closer per connection, launched after receiver.NewSink() returned, that fires when the stop
+   request IS signalled (also when it already was).  For every interleaving of clients connecting, the stop request,
+   NewSink returning and closers running: a state after the stop request in which none of the listener's goroutines
+   can step has every connection closed - the input reports Stopped(). *)
+Theorem C18_listener_quiescent_means_stopped :
+  forall cfg evs s, lg_sweep cfg = false -> l_run cfg l_init evs = Some s -> l_stop s = true ->
+  (forall e, l_own e = true -> l_step cfg s e = None) -> l_stopped s = true.
+Proof. exact listener_quiescent_closed_lemma. Qed.
+Print Assumptions C18_listener_quiescent_means_stopped.
+
+(* progress: while some connection is not closed after the stop request, a step of the listener is enabled
+   (NewSink returning is the hypothesis "callbacks return" of the wait graph) *)
+Theorem C18_listener_progress_after_stop :
+  forall cfg s, lg_sweep cfg = false -> l_stop s = true -> l_stopped s = false ->
+  exists e s', l_own e = true /\ l_step cfg s e = Some s'.
+Proof. exact listener_progress_lemma. Qed.
+Print Assumptions C18_listener_progress_after_stop.
+
+(* ... and every run after the stop request has exactly as many steps of the listener's goroutines as the measure
+   drops: at most 2 per connection that was being set up, 1 per established connection *)
+Theorem C18_listener_steps_after_stop_bounded :
+  forall cfg evs s s', lg_sweep cfg = false -> l_stop s = true -> l_run cfg s evs = Some s' ->
+  l_stop s' = true /\ (l_own_steps evs + l_measure (l_conns s') = l_measure (l_conns s))%nat.
+Proof. exact listener_steps_after_stop_lemma. Qed.
+Print Assumptions C18_listener_steps_after_stop_bounded.
+
+(* The VARIANT with one listener-wide sweep over the registered connections when the stop request fires (seeded): a
+   connection accepted before the stop request that registers after the sweep is never closed. *)
+Theorem C18_single_sweep_variant_refuted :
+  exists evs s, l_run (LCFG true) l_init evs = Some s /\ l_stop s = true /\
+    (forall e, l_own e = true -> l_step (LCFG true) s e = None) /\ l_stopped s = false.
+Proof. exact single_sweep_variant_refuted_lemma. Qed.
+Print Assumptions C18_single_sweep_variant_refuted.
+
+(* tests on literals (non-vacuity): the replays of the correspondence, kinds 3 and 4 *)
+Theorem C18_stopwaits_example :
+  (exists s, replay_qfull (QCFG 4 false) 12 3 = Some s /\ q_pc s = WDestroyed /\ q_kept s = 7%nat /\ q_dropped s = 5%nat) /\
+  (exists s, replay_qfull (QCFG 4 true) 12 0 = None /\ q_run (QCFG 4 true) (q_init 12) (repq 5 [QAccept]) = Some s /\ q_pc s = WBlocked 7) /\
+  (exists s, replay_listener (LCFG false) 3 2 = Some s /\ l_stopped s = true /\ length (l_conns s) = 5%nat) /\
+  replay_listener (LCFG true) 3 2 = None.
+Proof. exact stopwaits_example_lemma. Qed.
+Print Assumptions C18_stopwaits_example.
